@@ -1022,21 +1022,28 @@ func (x *Exec) keepThin(kind, label string) bool {
 // callAnchors handles `assert e at call <callee> [k]`: checked right before the k-th call whose
 // callee name contains <callee>.
 func (x *Exec) callAnchors(fr *Frame, calleeKey string, st *State, reach Term, pos token.Pos) {
-	if !fr.isTop || x.fc == nil {
+	if !fr.isTop || x.fc == nil || x.curBlock == nil {
 		return
 	}
+	cur := x.curBlock.Instrs[x.curIdx]
 	for i := range x.fc.Anchors {
 		ac := &x.fc.Anchors[i]
-		if ac.At != "call" || !strings.Contains(calleeKey, ac.Callee) {
+		if ac.At != "call" {
 			continue
 		}
-		x.callSeq[fmt.Sprintf("anchor:%d", i)]++
-		if x.callSeq[fmt.Sprintf("anchor:%d", i)] != ac.K {
+		if x.anchorTarget(fr.fn, ac) != cur {
 			continue
 		}
 		b, idx := x.curBlock, x.curIdx
 		env := &Env{vars: map[string]Val{}, cur: st, old: x.old, pkg: fr.fn.Pkg.Pkg, fr: fr, at: b, x: x, freshLo: "allocBase0"}
+		for n, v := range x.entryEnv.vars {
+			env.vars[n] = v
+		}
 		env.lookup = func(name string) (Val, bool) { return x.lookupVar(fr, b, idx, name, env.cur) }
+		// locals shadow parameters of the same name only through lookup; parameters stay bound to entry values
+		for _, p := range fr.fn.Params {
+			delete(env.vars, p.Name())
+		}
 		t := x.trBool(ac.Clause.Expr, env)
 		if ac.Kind == "assert" {
 			x.oblige("order", fmt.Sprintf("%s@%s#%d", labelOr(ac.Clause.Label, 0), ac.Callee, ac.K), implies(reach, t), pos, ac.Clause.Text)
@@ -1045,4 +1052,57 @@ func (x *Exec) callAnchors(fr *Frame, calleeKey string, st *State, reach Term, p
 			x.sc.note("ASSUMED at call %s: %s", ac.Callee, ac.Clause.Text)
 		}
 	}
+}
+
+// anchorTarget: the K-th call (in source order) of the function whose callee name contains ac.Callee.
+func (x *Exec) anchorTarget(fn *ssa.Function, ac *AnchorClause) ssa.Instruction {
+	var cands []ssa.Instruction
+	for _, b := range fn.Blocks {
+		if b == fn.Recover {
+			continue
+		}
+		for _, in := range b.Instrs {
+			ci, ok := in.(ssa.CallInstruction)
+			if !ok {
+				continue
+			}
+			if _, isGo := in.(*ssa.Go); isGo {
+				continue
+			}
+			if strings.Contains(x.staticCalleeKey(ci.Common()), ac.Callee) {
+				cands = append(cands, in)
+			}
+		}
+	}
+	sort.SliceStable(cands, func(i, j int) bool { return cands[i].Pos() < cands[j].Pos() })
+	if ac.K >= 1 && ac.K <= len(cands) {
+		return cands[ac.K-1]
+	}
+	return nil
+}
+
+func (x *Exec) staticCalleeKey(c *ssa.CallCommon) string {
+	if c.IsInvoke() {
+		return x.ifaceKey(c)
+	}
+	var callee *ssa.Function
+	switch v := c.Value.(type) {
+	case *ssa.Function:
+		callee = v
+	case *ssa.MakeClosure:
+		callee = v.Fn.(*ssa.Function)
+	}
+	if callee == nil {
+		if k := x.funcFieldKey(c.Value); k != "" {
+			return k
+		}
+		return ""
+	}
+	if callee.Origin() != nil {
+		callee = callee.Origin()
+	}
+	if callee.Pkg == nil || !strings.HasPrefix(callee.Pkg.Pkg.Path(), modPath) {
+		return fullName(callee)
+	}
+	return funcKey(callee)
 }
